@@ -54,28 +54,27 @@ Fixpoint has_overlap {O R} (h : list (call O R)) : bool :=
   | a :: r => existsb (overlap a) r || has_overlap r
   end.
 
+(* All four recorded findings are FIXED (426c657, 3b8fde0, 968926e): nothing is excused.  The
+   property predicate for a sequential history is "observed = what the spec iterator / counters
+   yield"; when it holds, the model of today's code (impl_remove) must reproduce the observation as
+   well, otherwise VMismatch (impl_remove = spec_remove is proved).  A concurrent round-robin
+   history that is not linearizable, or an unbalanced distribution, is a violation. *)
 Definition judge (c : case) : verdict :=
   match c with
   | CSeq ops observed =>
-      if beq_obsl observed (run_ops spec_remove ops [] init_state) then VOk
-      else if beq_obsl observed (run_ops impl_remove ops [] init_state) then
-        (if existsb has_unparsable (attempt_lists ops) then VKnown 2
-         else if existsb has_alias (attempt_lists ops) then VKnown 1
-         else VViolation)
+      if beq_obsl observed (run_ops spec_remove ops [] init_state)
+      then (if beq_obsl observed (run_ops impl_remove ops [] init_state) then VOk else VMismatch)
       else VViolation
   | CCanon b observed => if beq_bytes observed (canon b) then VOk else VMismatch
   | CCount h =>
       if check_history cstep N.eqb (length h) 0 h then VOk else VViolation
   | CRR n h =>
-      if check_history (rstep n) N.eqb (length h) 0 h then VOk
-      else if has_overlap h then VKnown 3 else VViolation
+      if check_history (rstep n) N.eqb (length h) 0 h then VOk else VViolation
   | CBalance n calls g counts =>
       if (fix eqs (a b : list N) := match a, b with
                                     | [], [] => true
                                     | x :: a', y :: b' => (x =? y) && eqs a' b'
                                     | _, _ => false end)
            counts (rr_counts n calls)
-      then VOk
-      else if (N.of_nat (length counts) =? n) && (fold_right N.add 0 counts =? calls) && (2 <=? g)
-      then VKnown 3 else VViolation
+      then VOk else VViolation
   end.
